@@ -192,6 +192,37 @@ def check_pair(spec, out_a, kw_a, out_b, kw_b, pmode="separate"):
     return res
 
 
+def check_containers():
+    """lazy results of one pipeline handed to another lazy pipeline inside a list / tuple / set, in ONE dag block: the task
+    graph must have an edge from each of them to the consumer, and everything is evaluated once"""
+    from pipefunc import PipeFunc, Pipeline
+    res = []
+    for kind, mk in (("list", list), ("tuple", tuple), ("set", set)):
+        terms.LOG.clear()
+        f = terms.make_function("f", ["x"])
+        g = terms.make_function("g", ["parts"])
+        try:
+            with contextlib.redirect_stdout(io.StringIO()):
+                p1, p2 = Pipeline([PipeFunc(f, "o")], lazy=True), Pipeline([PipeFunc(g, "t")], lazy=True)
+                with construct_dag() as tg:
+                    la, lb = p1("o", x="<x>a"), p1("o", x="<x>b")
+                    lc = p2("t", parts=mk([la, lb]))
+                edges = set(tg.graph.edges)
+                val = lc.evaluate()
+        except Exception as e:  # noqa: BLE001
+            res.append((findings.exc_sig(e, mode="containers", container=kind), f"lazy results inside a {kind} raised {type(e).__name__}: {str(e)[:120]}"))
+            continue
+        for src in (la, lb):
+            if not nx.has_path(tg.graph, src._id, lc._id):
+                res.append(({"kind": "dag-edges", "mode": "containers", "container": kind},
+                            f"lazy results handed over inside a {kind}: no path from the producer node {src._id} to the consumer node {lc._id} (edges {sorted(edges)})"))
+                break
+        names = sorted(n for n, _ in terms.LOG)
+        if names != ["f", "f", "g"] or not all(t in str(val) for t in ("f(<x>a)", "f(<x>b)")):
+            res.append(({"kind": "value-mismatch", "mode": "containers", "container": kind}, f"lazy results inside a {kind}: evaluate() = {val!r}, executed {names}"))
+    return res
+
+
 def run_spec(spec, acc):
     try:
         p0 = gen_dag.build(spec)
@@ -234,7 +265,7 @@ STAGES = {"quick": ["N1", "N2", "N2-three-output-producer", "N2-decorated", "N3-
 
 
 def plan(tier, seed):
-    out = []
+    out = [("containers-of-lazies", ("containers-of-lazies", 0, 1))]
     for st in STAGES[tier]:
         n = sum(1 for _ in c02.specs_for(st))
         nchunks = max(1, (n + c02.CHUNK[st] - 1) // c02.CHUNK[st])
@@ -247,6 +278,12 @@ def plan(tier, seed):
 def run_unit(unit):
     st, c, n = unit
     acc = Acc()
+    if st == "containers-of-lazies":
+        acc.case(("containers",))
+        acc.stratum("containers-of-lazies")
+        for sig, text in check_containers():
+            acc.violation(sig, {"containers": True}, text)
+        return acc
     for k, spec in enumerate(c02.specs_for(st)):
         if k % n == c:
             run_spec(spec, acc)
@@ -254,6 +291,8 @@ def run_unit(unit):
 
 
 def replay(art):
+    if art.get("containers"):
+        return [s for s, _ in check_containers()]
     spec = art["spec"]
     if "pair" in art:
         oa, ka, ob, kb = art["pair"]
